@@ -79,6 +79,10 @@ pub trait Node: Flat {
     fn declared_portable() -> bool {
         false
     }
+    /// the type's own `==` and `partial_cmp` against another mapped value, where it has them
+    fn eq_real(&self, _other: &Self) -> Option<(bool, Option<core::cmp::Ordering>)> {
+        None
+    }
     /// (FlatSized::SIZE, size_of, align_of) for sized types
     fn sized_info() -> Option<(usize, usize, usize)> {
         None
@@ -107,7 +111,7 @@ macro_rules! impl_flex_push_default {
     };
 }
 
-pub trait SizedNode: Node + Sized + Clone {
+pub trait SizedNode: Node + Sized + Clone + PartialEq + PartialOrd {
     fn from_value(v: &Value) -> Self;
 }
 
@@ -382,9 +386,12 @@ impl<T: SizedNode, L: LenNode> Node for FlatVec<T, L> {
         match kind {
             Kind::Iter => vec::FromIterator(items.iter().map(T::from_value)).emplace_unchecked(bytes),
             Kind::Literal => match items.len() {
-                0 => vec::FromArray::<T, 0>([]).emplace_unchecked(bytes),
-                1 => vec::FromArray::<T, 1>(core::array::from_fn(|i| T::from_value(&items[i]))).emplace_unchecked(bytes),
-                2 => vec::FromArray::<T, 2>(core::array::from_fn(|i| T::from_value(&items[i]))).emplace_unchecked(bytes),
+                0 => {
+                    let e: vec::FromArray<T, 0> = flatty::flat_vec![];
+                    e.emplace_unchecked(bytes)
+                }
+                1 => flatty::flat_vec![T::from_value(&items[0])].emplace_unchecked(bytes),
+                2 => flatty::flat_vec![T::from_value(&items[0]), T::from_value(&items[1])].emplace_unchecked(bytes),
                 3 => vec::FromArray::<T, 3>(core::array::from_fn(|i| T::from_value(&items[i]))).emplace_unchecked(bytes),
                 4 => vec::FromArray::<T, 4>(core::array::from_fn(|i| T::from_value(&items[i]))).emplace_unchecked(bytes),
                 _ => vec::FromIterator(items.iter().map(T::from_value)).emplace_unchecked(bytes),
@@ -428,6 +435,9 @@ impl<T: SizedNode, L: LenNode> Node for FlatVec<T, L> {
     fn field_probes(&self) -> Vec<FieldProbe> {
         let s = self.as_slice();
         vec![FieldProbe { addr: s.as_ptr() as usize, size: self.capacity() * core::mem::size_of::<T>(), align: core::mem::align_of::<T>() }]
+    }
+    fn eq_real(&self, other: &Self) -> Option<(bool, Option<core::cmp::Ordering>)> {
+        Some((self == other, self.partial_cmp(other)))
     }
     fn apply(&mut self, path: &[usize], op: &Op) -> OpOut {
         if !path.is_empty() {
@@ -534,6 +544,9 @@ impl<L: LenNode> Node for FlatString<L> {
     fn field_probes(&self) -> Vec<FieldProbe> {
         let s = self.as_vec().as_slice();
         vec![FieldProbe { addr: s.as_ptr() as usize, size: self.capacity(), align: 1 }]
+    }
+    fn eq_real(&self, other: &Self) -> Option<(bool, Option<core::cmp::Ordering>)> {
+        Some((self == other, self.partial_cmp(other)))
     }
     fn apply(&mut self, path: &[usize], op: &Op) -> OpOut {
         if !path.is_empty() {
